@@ -46,6 +46,69 @@ fn decode_c09(data: &[u8]) -> Option<crate::props::c09::Case> {
     Some(crate::props::c09::Case { cfg, source: vec![Seg::Lit { bytes: data[12..].to_vec() }], reads })
 }
 
+/// C03 / C13: an abstract layout straight from the fuzz input, so that libFuzzer's coverage feedback steers the shape
+/// of prior and target (planner, overlap map, executor): [k-2][hash len][n prior][sizes x k][prior slots][target slots].
+fn decode_layout(data: &[u8]) -> Option<crate::props::c03::Layout> {
+    if data.len() < 4 {
+        return None;
+    }
+    let k = 2 + (data[0] % 11) as usize;
+    let hash_len = match data[1] % 4 {
+        0 | 1 => 64,
+        2 => 8 + (data[1] as usize / 4) % 57,
+        _ => 8,
+    };
+    let rest = &data[3..];
+    if rest.len() < k {
+        return None;
+    }
+    let sizes: Vec<u32> = rest[..k].iter().map(|b| if b & 0x80 != 0 { 1 + (*b as u32 & 0x7f) + (*b as u32 & 3) * 40 } else { 1 + (*b as u32 & 0x0f) % 9 }).collect();
+    let slots = &rest[k..];
+    let np = (data[2] as usize).min(slots.len()).min(60);
+    let prior: Vec<u8> = slots[..np].iter().map(|b| b % k as u8).collect();
+    let target: Vec<u8> = slots[np..].iter().take(60).map(|b| b % k as u8).collect();
+    Some(crate::props::c03::Layout { sizes, prior, target, hash_len })
+}
+
+/// C10: [algo][bits][window][min class][min pick][max lo][max hi][|P1|][|P2|][read script x2] then P1, P2 and the common
+/// data S as raw bytes: the fuzzer mutates the streams themselves.
+fn decode_c10(data: &[u8]) -> Option<crate::props::c10::Case> {
+    use crate::gen::*;
+    if data.len() < 12 {
+        return None;
+    }
+    let h = &data[..12];
+    let window = 1 + (h[2] as usize % 64);
+    let max = window + (u16::from_le_bytes([h[5], h[6]]) as usize % 400);
+    let min = match h[3] % 4 {
+        0 => 0,
+        1 => (h[4] as usize) % (window + 1),
+        2 => window.min(max),
+        _ => window + (h[4] as usize) % (max - window + 1),
+    };
+    let cfg = match h[0] % 5 {
+        0 => ChunkerCfg { algo: Algo::FixedSize, bits: 0, min: 0, max: 1 + h[2] as usize, window: 0 },
+        1 | 2 => ChunkerCfg { algo: Algo::RollSum, bits: 1 + (h[1] % 6) as u32, min: min.min(max), max, window },
+        _ => ChunkerCfg { algo: Algo::BuzHash, bits: 1 + (h[1] % 6) as u32, min: min.min(max), max, window },
+    };
+    let body = &data[12..];
+    let n1 = (h[7] as usize).min(body.len());
+    let n2 = (h[8] as usize).min(body.len() - n1);
+    let script = |b: u8| match b % 4 {
+        0 | 1 => ReadScript::full(),
+        2 => ReadScript { sizes: vec![1 + (b as u32 >> 2) % 9], pending_every: b >> 6 },
+        _ => ReadScript { sizes: vec![1 + (b as u32 >> 2), 0, 3], pending_every: b >> 6 },
+    };
+    Some(crate::props::c10::Case {
+        cfg,
+        p1: vec![Seg::Lit { bytes: body[..n1].to_vec() }],
+        p2: vec![Seg::Lit { bytes: body[n1..n1 + n2].to_vec() }],
+        s: vec![Seg::Lit { bytes: body[n1 + n2..].to_vec() }],
+        r1: script(h[9]),
+        r2: script(h[10]),
+    })
+}
+
 fn report<C: Serialize>(prop: &str, variant: &str, case: &C, msg: &str) -> ! {
     let doc = serde_json::json!({"property": prop, "variant": variant, "case": case, "observed": msg});
     eprintln!("VIOLATION-CASE {}", doc);
@@ -152,6 +215,24 @@ pub fn run(prop: &str, data: &[u8]) {
                         report(prop, "struct", &c, &f.message);
                     }
                 }
+            }
+        }
+        "C03" => {
+            let Some(l) = decode_layout(data) else { return };
+            if let Err(f) = watched(prop, "rand", &l, || guarded(|| crate::props::c03::check_layout(&l, &mut rec))) {
+                report(prop, "rand", &l, &f.message);
+            }
+        }
+        "C13" => {
+            let Some(l) = decode_layout(data) else { return };
+            if let Err(f) = watched(prop, "layout", &l, || guarded(|| crate::props::c13::layout_case(&l, &mut rec))) {
+                report(prop, "layout", &l, &f.message);
+            }
+        }
+        "C10" => {
+            let Some(c) = decode_c10(data) else { return };
+            if let Err(f) = watched(prop, "resync", &c, || guarded(|| crate::props::c10::run_case(&c, &mut rec))) {
+                report(prop, "resync", &c, &f.message);
             }
         }
         "C17" => {
